@@ -1723,8 +1723,13 @@ func runScenario(seed int64, n int, out *bufio.Writer, kind string, suffix strin
 				h.policy[t] = append(h.policy[t], c)
 			}
 			h.emit("(devpolicy)", fmt.Sprintf("%s:%s:%d", tnum(t), c.String(), burst))
-			// mostly synchronous: the caller then gets the failure class of a refused change (or waits out a transient one)
-			h.nbSet([]op{{target: t, path: env.Pick(r, paths), val: fmt.Sprintf("v%d", r.Intn(1000))}}, r.Intn(4) != 0, r.Intn(4) == 0)
+			// mostly synchronous: the caller then gets the failure class of a refused change (or waits out a transient one);
+			// one change in three is a delete (of a leaf, a list entry or a whole container / list with applied values)
+			o := op{target: t, path: env.Pick(r, paths), val: fmt.Sprintf("v%d", r.Intn(1000))}
+			if r.Intn(3) == 0 {
+				o = op{target: t, path: env.Pick(r, delPaths), del: true}
+			}
+			h.nbSet([]op{o}, r.Intn(4) != 0, r.Intn(4) == 0)
 			h.settle(30, 0)
 		}
 		nev = r.Intn(2)
